@@ -228,3 +228,123 @@ func ruleStamp(p *Prog, r *Report, stampPkg, stampFn string, floor int) {
 	}
 	r.Floor(rule, n, floor)
 }
+
+// ruleDrain — R-DRAIN (C16): a function that reads the index through a gzip reader returns success only after the stream has
+// been read to its end (io.Copy / io.ReadAll on that reader, its error tested): the CRC-32 and length of the gzip trailer are
+// verified only when the end is reached, so a reader that stops after the last entry accepts a corrupted cache whenever its
+// entries still decode.
+func ruleDrain(p *Prog, r *Report, pkg string, floor int) {
+	const rule = "R-DRAIN"
+	n := 0
+	for _, f := range p.ModFns() {
+		if fnPkg(f) == nil || fnPkg(f).Path() != p.pkgPath(pkg) {
+			continue
+		}
+		var readers []ssa.Value
+		for _, b := range f.Blocks {
+			for _, in := range b.Instrs {
+				if c, ok := in.(*ssa.Call); ok {
+					if sc := c.Common().StaticCallee(); sc != nil && sc.String() == "compress/gzip.NewReader" {
+						readers = append(readers, c)
+					}
+				}
+			}
+		}
+		if len(readers) == 0 {
+			continue
+		}
+		fromReader := func(v ssa.Value) bool {
+			return derivesFrom(v, func(x ssa.Value) bool {
+				if mi, ok := x.(*ssa.MakeInterface); ok {
+					x = mi.X
+				}
+				if ex, ok := x.(*ssa.Extract); ok {
+					for _, rd := range readers {
+						if ex.Tuple == rd {
+							return true
+						}
+					}
+				}
+				return false
+			}, 0)
+		}
+		// unwrap MakeInterface before derivesFrom (it does not look through it)
+		isDrain := func(in ssa.Instruction) bool {
+			c, ok := in.(*ssa.Call)
+			if !ok {
+				return false
+			}
+			sc := c.Common().StaticCallee()
+			if sc == nil {
+				return false
+			}
+			src := -1
+			switch sc.String() {
+			case "io.Copy":
+				src = 1
+			case "io.ReadAll":
+				src = 0
+			}
+			if src < 0 || src >= len(c.Common().Args) {
+				return false
+			}
+			a := c.Common().Args[src]
+			if mi, ok := a.(*ssa.MakeInterface); ok {
+				a = mi.X
+			}
+			if !fromReader(a) {
+				return false
+			}
+			// its error is looked at
+			if c.Referrers() == nil {
+				return false
+			}
+			for _, u := range *c.Referrers() {
+				if ex, ok := u.(*ssa.Extract); ok && ex.Index == 1 && ex.Referrers() != nil && len(*ex.Referrers()) > 0 {
+					return true
+				}
+			}
+			return false
+		}
+		for _, b := range f.Blocks {
+			ret, ok := b.Instrs[len(b.Instrs)-1].(*ssa.Return)
+			if !ok || len(ret.Results) == 0 {
+				continue
+			}
+			if !returnsNilError(ret) {
+				continue
+			}
+			n++
+			key := p.FnName(f) + "/success"
+			r.Instance(rule, key)
+			ok2, path := mustPrecede(p, f, ret, isDrain, nil)
+			r.Check(ok2, rule, key, p.IPos(ret), "success is returned only after the compressed stream was read to its end with the error tested (the gzip checksum is verified at the end of the stream)", path...)
+		}
+	}
+	r.Floor(rule, n, floor)
+}
+
+// returnsNilError: the last result of ret is the nil constant, directly or through the result variable that functions
+// with a defer spill their results to (the last store to it in the block of the return).
+func returnsNilError(ret *ssa.Return) bool {
+	last := ret.Results[len(ret.Results)-1]
+	if c, ok := last.(*ssa.Const); ok {
+		return c.IsNil()
+	}
+	u, ok := last.(*ssa.UnOp)
+	if !ok || u.Op != token.MUL {
+		return false
+	}
+	al, ok := u.X.(*ssa.Alloc)
+	if !ok {
+		return false
+	}
+	instrs := ret.Block().Instrs
+	for i := len(instrs) - 1; i >= 0; i-- {
+		if st, ok := instrs[i].(*ssa.Store); ok && st.Addr == ssa.Value(al) {
+			c, ok := st.Val.(*ssa.Const)
+			return ok && c.IsNil()
+		}
+	}
+	return false
+}
